@@ -67,6 +67,8 @@ def gen_instance(rng, iid, family='random', nmax_geos=6):
     n = rng.choice([1, 2, 2, 3])
   else:
     n = rng.choices([2, 3, 4, 5, 6], weights=[0.08, 0.3, 0.36, 0.2, 0.06])[0]
+  if family == 'negshare':
+    n = rng.choice([4, 4, 5, 5, 6])
   n = min(n, nmax_geos)
   n_dates = rng.randint(12, 26)
   n_test = rng.choice([1, 2, 2, 3, 3, 4, 4, 7])
@@ -104,6 +106,10 @@ def gen_instance(rng, iid, family='random', nmax_geos=6):
     if rng.random() < 0.5:
       a, b = rng.sample(range(n), 2)
       elig[a] = elig[b] = 'c'
+    default_elig = False
+  if family == 'negshare':
+    # a share cap while one treatable geo has a NEGATIVE share: an over-share group plus that geo is back in range
+    elig = [rng.choice(['ctx', 'ctx', 'ctx', 'ctx', 'cx', 'tx']) for _ in range(n)]
     default_elig = False
   if family == 'truncate' and n >= 3:
     # n_geos_max binds and the geos that may not be excluded are the SMALL ones (lowest impact)
@@ -189,6 +195,13 @@ def gen_instance(rng, iid, family='random', nmax_geos=6):
       cr = (2, rng.randint(2, n))
     share = (0, 0, 0, 0)
     want_budget = False
+  if family == 'negshare':
+    share = (rng.choice([2, 5, 10]), 100, rng.choice([35, 45, 55, 65]), 100)
+    vtol = (0, 0)
+    want_budget = False
+    nmax = 0
+    tr = (0, 0) if rng.random() < 0.6 else (1, n - 1)
+    p['n_designs'] = rng.choice([5, 50, 50])
   if family == 'truncate' and n >= 3:
     nmax = rng.randint(2, n - 1)
     share = (0, 0, 0, 0)
@@ -217,7 +230,7 @@ def gen_instance(rng, iid, family='random', nmax_geos=6):
       for d in range(n_dates):
         if (g, d) in cells:
           cells[(g, d)] += off
-  neg_vol = family == 'c13vol' and iid % 3 == 1
+  neg_vol = (family == 'c13vol' and iid % 3 == 1) or family == 'negshare'
   if n >= 2 and ((family in ('random', 'constraints', 'degenerate') and iid % 9 in (4, 7)) or neg_vol):
     # responses need not be positive: the smallest geo records net outflows (every value negated; any group with
     # another geo still has a positive total) or nets out to exactly zero (+a, -a, +b, -b, ...: share zero)
@@ -230,6 +243,8 @@ def gen_instance(rng, iid, family='random', nmax_geos=6):
         f = max(1.0, 0.85 * min(others) / max(tot[g0], 1))     # as large as the next geo allows
         for d in days:
           cells[(g0, d)] = -int(round(cells[(g0, d)] * f))
+        if family == 'negshare':
+          elig[g0 - 1] = rng.choice(['ctx', 'ctx', 'tx'])      # the negative geo may be treated
         if share[1] == 0 and vtol[1] == 0:
           # shares are where the sign matters: such a panel gets a volume tolerance or a share range
           if (iid // 9) % 2:
@@ -881,7 +896,7 @@ def judge(res, insts, label, nchunks=8):
 FAMILIES = {
     'C01': [('random', 0.45), ('constraints', 0.25), ('truncate', 0.12), ('degenerate', 0.09), ('tiny', 0.09)],
     'C02': [('constraints', 0.5), ('random', 0.27), ('fixedtrt', 0.15), ('tiny', 0.08)],
-    'C03': [('random', 0.45), ('constraints', 0.45), ('cancel', 0.1)],
+    'C03': [('random', 0.4), ('constraints', 0.4), ('cancel', 0.1), ('negshare', 0.1)],
     'C04': [('random', 0.6), ('constraints', 0.4)],
     'C09': [('degenerate', 0.42), ('tiny', 0.23), ('constraints', 0.27), ('longtest', 0.08)],
     'C13': [('random', 0.45), ('constraints', 0.3), ('c13vol', 0.12), ('c13ratio', 0.13)],
